@@ -13,7 +13,7 @@ RULE = (
     "chi2 of the returned state; with zero noise every optimized vertex equals the ground truth. Non-trivial = the graph has a loop closure or a "
     "landmark and the perturbation is > 0.05."
 )
-BUDGET = {"quick": 16 * 120, "thorough": 16 * 5000}
+BUDGET = {"quick": 16 * 350, "thorough": 16 * 5000}
 TOLERANCES = {
     "chi2 decrease": "final <= initial*(1+1e-9) + floor",
     "newton decrement": "lambda^2 <= tol*chi2_final + 1e-12*(1+chi2_initial)",
@@ -41,7 +41,7 @@ def strategy_(g):
         conds=(cond,),
         noise=(nz, nz),
         pert=(0.3, 0.3),
-        features=("parallel", "reversed", "permute", "ids", "multifixed"),
+        features=("parallel", "reversed", "permute", "ids", "multifixed", "quat-signs"),
     )
     case["tol"] = 10.0 ** g.rnd.uniform(-10, -3)
     return case
